@@ -95,7 +95,7 @@ type CeremonySim struct {
 	// hooks
 	OnStep      func(res *BlockResult)          // after every successfully distributed block
 	OnPhase     func(phase string)              // "lottery", "short", "long", "afterlong" (right after the flagged block)
-	BeforeFinal func()                          // the next block will finish the validation
+	BeforeFinal func() bool                     // the next block will finish the validation; false = do not produce it, stop the world
 	OnRefused   func(res *BlockResult)          // a replica refused a block
 	Stopped     bool                            // a block was refused: the world is no longer usable
 	ChainLinks  int                             // transitive delegation shape to build this epoch: 0 none, 2 = A->P->Q, 3 = A->P->Q->R
@@ -223,7 +223,10 @@ func (s *CeremonySim) Step(dt time.Duration) *BlockResult {
 	s.flush()
 	st := w.View().AppState.State
 	if s.BeforeFinal != nil && st.ValidationPeriod() == state.AfterLongSessionPeriod && st.CanCompleteEpoch() {
-		s.BeforeFinal()
+		if !s.BeforeFinal() {
+			s.Stopped = true
+			return nil
+		}
 	}
 	now := w.Now()
 	if ht := w.HeadTime(); now.Before(ht) {
@@ -253,17 +256,6 @@ func (s *CeremonySim) Step(dt time.Duration) *BlockResult {
 				m[tx.Type] = b.Height()
 			}
 		}
-	}
-	if s.Debug {
-		pn := "-"
-		if res.Proposer != nil {
-			pn = res.Proposer.Name
-		}
-		pools := ""
-		for _, r := range w.Replicas[:4] {
-			pools += fmt.Sprintf(" %s:%d", r.Name, len(r.TxPool.VerifAll()))
-		}
-		fmt.Printf("DBG b%d h%d %s by %s txs=%d (%s) pools after:%s\n", s.blockNo, b.Height(), BlockKind(b), pn, len(b.Body.Transactions), TxTypesOf(b), pools)
 	}
 	if s.OnStep != nil {
 		s.OnStep(res)
@@ -515,6 +507,15 @@ func (s *CeremonySim) submitFlips() {
 		// count flips still waiting in the reference pool
 		pending := int(w.NextNonce(a)) - int(w.StateNonce(a))
 		want := max
+		if a == w.God {
+			// now and then god does not make its flips and drops out of the candidates
+			if _, decided := pl.LackFlips[a.Addr]; !decided {
+				pl.LackFlips[a.Addr] = id.RequiredFlips > 0 && r.Intn(8) == 0
+			}
+			if pl.LackFlips[a.Addr] {
+				want = int(id.RequiredFlips) - 1
+			}
+		}
 		if !s.isNodeOwner(a.Addr) {
 			if _, decided := pl.LackFlips[a.Addr]; !decided {
 				pl.LackFlips[a.Addr] = id.RequiredFlips > 0 && r.Intn(9) == 0
@@ -526,9 +527,7 @@ func (s *CeremonySim) submitFlips() {
 			}
 		}
 		if a == w.God {
-			if want < 6 && id.RequiredFlips == 0 {
-				want = 6 // god may author flips without a quota while the network is small
-			}
+			// god needs no key word pairs; its quota only binds in networks above GodValidUntilNetworkSize
 		} else if id.GetTotalWordPairsCount() == 0 {
 			continue // no key word pairs yet (RequiredFlips == 0): a flip tx would be refused as invalid payload
 		}
@@ -714,6 +713,9 @@ func (s *CeremonySim) answersFor(c common.Address, idx []int, long bool) *types.
 	increased := 0
 	reports := 0
 	for i, fi := range idx {
+		if len(pl.Flips) == 0 {
+			break // a ceremony without any flip: the lottery hands out placeholder indexes; answer nothing
+		}
 		cid := pl.Flips[fi%len(pl.Flips)]
 		truth := pl.Truth[string(cid)]
 		if truth == types.None {
@@ -901,7 +903,7 @@ func (s *CeremonySim) Finish() *types.Block {
 			}
 		}
 		res := s.Step(20 * time.Second)
-		if s.Stopped {
+		if s.Stopped || res == nil {
 			return nil
 		}
 		if res.Block.Header.Flags().HasFlag(types.ValidationFinished) {
